@@ -76,7 +76,7 @@ func genCase(t *rapid.T) Case {
 	n := rapid.IntRange(3, 25).Draw(t, "n")
 	for i := 0; i < n; i++ {
 		op := Op{Client: rapid.IntRange(0, c.Clients-1).Draw(t, "client")}
-		op.Kind = rapid.SampledFrom([]string{"get", "get", "set", "set", "setbad", "settyped", "settyped", "update", "updatebad", "subscribe", "rawget", "set2", "update2", "subscribe2", "stats", "trace", "unsubscribe", "subscribe", "subscribe2", "terminate2", "stalecancel2", "unsubscribe", "brokensub", "churnsubs", "dupidsub"}).Draw(t, "kind")
+		op.Kind = rapid.SampledFrom([]string{"get", "get", "set", "set", "setbad", "settyped", "settyped", "update", "updatebad", "subscribe", "rawget", "set2", "update2", "subscribe2", "stats", "trace", "unsubscribe", "subscribe", "subscribe2", "terminate2", "stalecancel2", "unsubscribe", "brokensub", "churnsubs", "dupidsub", "sidesub", "sidesub"}).Draw(t, "kind")
 		switch op.Kind {
 		case "set", "update", "set2", "update2":
 			op.Value = rapid.Int32Range(0, 1<<30).Draw(t, "v")
@@ -133,6 +133,9 @@ type client struct {
 	twin   *probe.Bomb
 	// removeTwin removes the second object from its service
 	removeTwin func() error
+	// a subscription to another signal of the first object (boom), held through
+	// the same proxy and connection as the property's subscribers
+	sideCancel func()
 }
 
 func dynString(s string) []byte { return ref.EncodeDyn(ref.Dyn{T: ref.Scalar(ref.KString), V: s}) }
@@ -444,6 +447,28 @@ func checkCase(c Case) error {
 				sb.cancel()
 			}
 			vt.Label("subscribers-came-and-left")
+		case "sidesub":
+			// this client subscribes to another signal of the same object, or, if
+			// it has done so before, cancels that subscription: the registrations
+			// of the property's subscribers on the same connection are not affected
+			if cl.sideCancel != nil {
+				cl.sideCancel()
+				cl.sideCancel = nil
+				vt.Label("side-subscription-cancelled")
+				if len(cl.subs) > 0 {
+					vt.Label("side-subscription-cancelled-beside-a-property-subscriber")
+				}
+				break
+			}
+			cancel, ch, err := cl.proxy.SubscribeBoom()
+			if err != nil {
+				return vt.Violationf("C14:subscribe-error", "step %d: SubscribeBoom failed: %v", i, err)
+			}
+			go func() {
+				for range ch {
+				}
+			}()
+			cl.sideCancel = cancel
 		case "dupidsub":
 			// two more connections register for the change events with the same
 			// identifier (clients which number their registrations from one do)
